@@ -31,8 +31,8 @@ P = {
          "timestamps (never read by the code: no ModTime call in the SSA), more files"),
  "C14": ("log", "walkHistory + log RunE over chains of 1..3 (6) commits written by the real commit command, an optional side branch, optional dirty staging area, -n a free 64-bit integer in [-2,100] or absent",
          "chains longer than the bound (the property asks up to 50)"),
- "C15": ("crash consistency", "17 modifying commands (config, add, commit first/second, branch, branch -r, branch -d, switch, switch -c, rm, restore, restore --staged, reset soft/mixed/hard, update-ref) with the crash index a solver variable over every file-system modification of the command (unwinding assertion on the range), followed by fsck and six read-only commands",
-         "torn writes inside one write call, durability/fsync ordering, init (an interrupted init is not restartable: not asserted), states outside the scenario list"),
+ "C15": ("crash consistency", "18 modifying commands (init, config, add, commit first/second, branch, branch -r, branch -d, switch, switch -c, rm, restore, restore --staged, reset soft/mixed/hard, update-ref) with the crash index a solver variable over every file-system modification of the command (unwinding assertion on the range), followed by fsck and six read-only commands",
+         "torn writes inside one write call, durability/fsync ordering, states outside the scenario list"),
  "C16": ("I/O failures", "the same 17 commands with the index of the failing fallible call (open/create/read/readdir/write/mkdir/rename/remove; stat excluded) a solver variable; oracle: exit 1, or exactly the state and output of the failure-free twin run from the same checkpoint; fsck afterwards",
          "partial writes, Close errors, more than one fault"),
  "C17": ("ignored paths", "add (file / directory / '.' / '.goit'), status, Ignore.load/IsIncluded, GetFilePathsUnderDirectory(WithIgnore) with free directory names, free extensions, every combination of 'name/' and '*.ext' lines, after the metadata directory has grown; names merely containing '.goit'",
@@ -65,6 +65,6 @@ m={"version":1,
  "engines":[{"name":"goitsym","path":"/verif/engine","serves_properties":sorted(P.keys()),"kind_free_text":"symbolic executor for Goit's go/ssa form written for this task: path conditions in SMT-LIB2 (QF_BV) decided by z3 4.8.12 over pipes; intrinsic models for the standard library, file system, process start, crash and fault indices"}],
  "checks":checks,
  "not_applicable":[],
- "notes":"Each check reloads /repo's current working tree with go/packages (overlaying /verif/harness/**) and rebuilds the SSA on every run; nothing is cached. known_findings.json lists 28 defects found by these checks and repaired by 'fix:' commits in /repo; no unrepaired finding is listed."}
+ "notes":"Each check reloads /repo's current working tree with go/packages (overlaying /verif/harness/**) and rebuilds the SSA on every run; nothing is cached. known_findings.json lists 29 defects found by these checks and repaired by 'fix:' commits in /repo; no unrepaired finding is listed."}
 json.dump(m,open('/verif/MANIFEST.json','w'),indent=1)
 print("ok",len(checks))
